@@ -259,9 +259,12 @@ def backbone_peptides(bb: Backbone, edits, lim: dg.Limits, flags: Flags, must: b
     use_known = bb.coding and bb.known_start is not None
     if use_known:
         ks = pmap(bb.known_start)
-        if ks is not None:
+        # the annotated start is a permitted start site only while its codon reads ATG (or the CDS start is annotated as
+        # incomplete): a fusion whose breakpoint cuts into the donor's start codon completes the codon with acceptor bases
+        start_ok = bb.cds_start_nf or ks is None or full[ks:ks + 3] == 'ATG'
+        if ks is not None and start_ok:
             starts.append((ks, True))
-        if not must:
+        if not must and start_ok:
             starts.append((bb.known_start, True))     # reading that ignores upstream indels
     # novel ORFs of coding transcripts (--coding-novel-orf) are allowed (MAY) but never demanded: the
     # documentation does not say which variants reach the non-canonical frames of a coding transcript
@@ -326,7 +329,7 @@ def reference_peptides(bb: Backbone, lim: dg.Limits, flags: Flags):
     ref.coding = bb.coding if bb.ref_coding is None else bb.ref_coding
     ref.known_start = bb.ref_known_start if bb.ref_seq is not None else bb.known_start
     ref.sec = list(bb.ref_sec if bb.ref_seq is not None else bb.sec)
-    ref.cds_start_nf = bb.cds_start_nf
+    ref.cds_start_nf = bb.cds_start_nf or bool(getattr(bb.tx, 'cds_start_nf', False))     # the unmodified transcript's own flag (circRNA backbones carry none)
     out = backbone_peptides(ref, (), lim, flags, must=False)
     if not ref.coding or flags.coding_novel_orf:
         pass
